@@ -470,6 +470,12 @@ class Ctx:
         violations = 0
         out_lines = []
         os.makedirs(os.path.join(VERIF, "replays"), exist_ok=True)
+        # replays of an earlier run with this property and seed are stale now
+        import glob
+        for old in glob.glob(os.path.join(VERIF, "replays", "%s-%d-*.json" % (self.prop, self.seed))):
+            os.unlink(old)
+        if self.disagreements:
+            json.dump(self.disagreements[:20], open(os.path.join(VERIF, "replays", "%s-%d-disagreements.json" % (self.prop, self.seed)), "w"), indent=1)
         for k in self.known_hit:
             out_lines.append("KNOWN-FINDING: property=%s %s" % (self.prop, k["what"]))
         # 1. direct oracle failures on the real code: violation with the failing input as replay
